@@ -1,5 +1,6 @@
 import CedarVerif.Lemmas.TpeViews
 import CedarVerif.Lemmas.TpeQuery
+import CedarVerif.Lemmas.TpeSound4
 /-
 C14 — type-aware partial evaluation and permission queries are sound.  Property theorems only
 (helpers: Lemmas/Tpe*.lean).  Model: Cedar/Tpe.lean (`Residual`, `interpret`, `Tpe.Response`, views, `reauthorize`, queries).
@@ -199,5 +200,60 @@ theorem query_action_sound (acts : List (EntityUID × List TPolicy)) (p r : PUid
       · rename_i hne
         simp only [Option.some.injEq] at hf; subst hf
         exact ⟨tps, resp, hm, hr, rfl, by simpa using hne⟩
+
+/-- **Full statement of `interpret` soundness** (DESIGN.md §6 C14), kept visible; NOT proved in full.  For every
+completion consistent with the partial inputs, every residual evaluates like its interpretation (equal values, or both
+errors) — hence a residual policy is satisfied / unsatisfied / erroring exactly when its original is — for ALL arms,
+given only that the can-error analysis is sound for the residuals `interpret` produces and that `&&`/`||` operands are
+booleans (both consequences of validation). -/
+def InterpretSoundFull : Prop :=
+  ∀ (preq : Tpe.PRequest) (pes : Tpe.PEntities) (req : Request) (es : Entities), Completes preq pes req es →
+    (∀ r, ErrFreeSound preq pes req es r) → (∀ r, OpBool preq pes req es r) →
+    ∀ r : Residual, Agree ((interpret preq pes r).eval req es) (r.eval req es)
+
+/-- **interpret_sound_partial**: `InterpretSoundFull` on the fragment `Frag` of `interpret`: concrete and error
+residuals, the four variables (unknown principal / resource id, unknown context), `&&` and `||` with all their
+simplifications incl. `<error-free> && false → false` and `<error-free> || true → true`, `if`, every unary operator,
+the nine store-free binary operators, `.` and `has` on records and on entities with known or unknown attributes,
+`like`, `is` incl. its short circuit on an unknown principal / resource.  The hypotheses about validation are
+attached to the `&&`/`||` nodes of the fragment: `OpBool` (the operands are booleans when they evaluate) and the
+explicit `ErrFreeSound` ("`¬canError r` ⇒ `r` does not error on the completion") for the left operand.
+`Agree` = equal values, or both errors (classes not compared).
+Missing w.r.t. the full statement: `in`, `getTag`, `hasTag` (unknown ancestors / tags), extension calls, set and record
+constructors; and the passage `Residual → Expr` (`Residual.eval` evaluates a `Concrete` residual to its value). -/
+theorem interpret_sound_partial (preq : Tpe.PRequest) (pes : Tpe.PEntities) (req : Request) (es : Entities)
+    (hC : Completes preq pes req es) {r : Residual} (hf : Frag preq pes req es r) :
+    Agree ((interpret preq pes r).eval req es) (r.eval req es) ∧
+    (∀ b, (interpret preq pes r).eval req es = .ok (.prim (.bool b)) ↔ r.eval req es = .ok (.prim (.bool b))) ∧
+    ((∃ e, (interpret preq pes r).eval req es = .error e) ↔ ∃ e, r.eval req es = .error e) := by
+  have h := interpret_sound_frag hC hf
+  refine ⟨h, ?_, ?_⟩
+  · intro b
+    rcases agree_cases h with ⟨v, h1, h2⟩ | ⟨e, e', h1, h2⟩ <;> simp [h1, h2]
+  · rcases agree_cases h with ⟨v, h1, h2⟩ | ⟨e, e', h1, h2⟩ <;> simp [h1, h2]
+
+/-- non-vacuity of `interpret_sound_partial`: resource id unknown, `User::"a"` with unknown attributes:
+`resource is Doc && User::"a" has manager` — the `is` short-circuits to `true` on the partial request, the `has`
+stays a residual; the fragment hypotheses hold on the completion. -/
+example :
+    let preq : Tpe.PRequest := ⟨⟨"User", some "a"⟩, ⟨"Action", "view"⟩, ⟨"Doc", none⟩, some []⟩
+    let pes : Tpe.PEntities := [(⟨"User", "a"⟩, ⟨none, some [], some []⟩)]
+    let req : Request := ⟨⟨"User", "a"⟩, ⟨"Action", "view"⟩, ⟨"Doc", "d"⟩, []⟩
+    let es : Entities := [(⟨"User", "a"⟩, ⟨[("manager", .prim (.entityUID ⟨"User", "b"⟩))], [], []⟩)]
+    let l : Residual := .part (.is (.part (.var .resource) "") "Doc") ""
+    let r : Residual := .part (.hasAttr (.concrete (.prim (.entityUID ⟨"User", "a"⟩)) "") "manager") ""
+    Frag preq pes req es (.part (.and l r) "") ∧ (interpret preq pes (.part (.and l r) "")).isPartial = true ∧
+    (Residual.part (.and l r) "").eval req es = .ok (.prim (.bool true)) := by
+  intro preq pes req es l r
+  refine ⟨?_, by decide, by rfl⟩
+  refine Frag.and (Frag.is (Frag.var _ _)) (Frag.hasAttr (Frag.concrete _ _)) ?_ ?_ ?_
+  · intro v hv
+    have : (interpret preq pes l).eval req es = .ok (.prim (.bool true)) := by rfl
+    rw [this] at hv; cases hv; exact ⟨true, rfl⟩
+  · intro v hv
+    have : (interpret preq pes r).eval req es = .ok (.prim (.bool true)) := by rfl
+    rw [this] at hv; cases hv; exact ⟨true, rfl⟩
+  · intro _
+    exact ⟨.prim (.bool true), by rfl⟩
 
 end Cedar.C14
